@@ -324,6 +324,68 @@ def run(ctx):
                             "replay": replay_cmd(c["id"])})
     # every generated callee signature starts from two borrowed inputs of one type (gen_sig); both corpus programs have one too
     stats["programs_with_same_typed_borrowed_pair"] = len(cases)
+    # ---- callee side: rebinding a borrowed parameter must be rejected --------------------------
+    import gen_extra
+    rb = gen_extra.rebind_cases()
+    ct = gen_extra.comptime_cases(vlib.rng(ctx.seed, "C07-ct"), 24 if ctx.quick else 160)
+    extra = rb + ct
+    xb = [[{k: c[k] for k in ("id", "src", "entry", "funcs", "mode") if k in c} for c in extra[i:i + B]] for i in range(0, len(extra), B)]
+    ximpl = {}
+    with ThreadPoolExecutor(max_workers=12) as ex:
+        for out in ex.map(lambda b: ctx.impl("impl_writeback.py", b), xb):
+            ximpl.update(json.loads(out))
+    rstats = {"rebind_programs": len(rb), "rebind_rejected_as_required": 0, "comptime_programs": len(ct),
+              "comptime_accepted_with_provenance": 0, "comptime_rejected_allowed": 0,
+              "comptime_by_kind": {}}
+    for c in rb:
+        res = ximpl.get(c["id"], {})
+        f = res.get("funcs", {}).get("cal", {})
+        verdict = f.get("verdict", "error:" + str(res.get("error_class") or res.get("error")))
+        if verdict == c["expect"]:
+            rstats["rebind_rejected_as_required"] += 1
+            continue
+        detail = {"case": c["id"], "what": c["what"], "src": c["src"], "required_verdict": c["expect"], "observed_verdict": verdict,
+                  "why": "Python: rebinding a parameter never affects the caller; lending is compiled as 'return the callee's variable', "
+                         "so an accepted rebinding hands the caller a different object than the one it lent",
+                  "replay": "write `src` to a file on PYTHONPATH=/verif/tools:<repo>/guppylang/src:<repo>/guppylang-internals/src, import it with /venv/bin/python and call cal.check()"}
+        if "outs" in f:
+            k = c["borrowed_param_index"]
+            d = gen_extra.deps(f["outs"][k] if k < len(f["outs"]) else [], f["events"])
+            detail["compiled_callee"] = pretty_tr(norm_impl(f, {}))
+            detail["output_for_borrowed_parameter_depends_on_its_input"] = ("in", k) in d
+        elif res.get("error"):
+            detail["compile_error_after_acceptance"] = res.get("error")
+        ctx.report(f"rebind:{c['id']}", "counterexample", "a callee that rebinds a borrowed parameter is not rejected with BorrowShadowedError", detail)
+    # ---- comptime callers: the value read after the call derives from the call's output ---------
+    for c in ct:
+        res = ximpl.get(c["id"], {})
+        rstats["comptime_by_kind"][c["kind"]] = rstats["comptime_by_kind"].get(c["kind"], 0) + 1
+        base = {"case": c["id"], "src": c["src"], "elements": c["elements"],
+                "replay": "write `src` to a file on PYTHONPATH=/verif/tools:<repo>/guppylang/src:<repo>/guppylang-internals/src and run caller.compile_function() with /venv/bin/python"}
+        if not res.get("ok"):
+            if c["must_accept"]:
+                ctx.report(f"comptime:{ctx.seed}:{c['id']}", "counterexample",
+                           "a comptime caller lending lists of wires is rejected", dict(base, error=res.get("error")))
+            else:
+                rstats["comptime_rejected_allowed"] += 1
+            continue
+        f = res["funcs"].get("caller", {})
+        if "outs" not in f:
+            ctx.report(f"comptime:{ctx.seed}:{c['id']}", "correspondence", "comptime caller could not be traced", dict(base, error=f.get("error")), found_input=False)
+            continue
+        calls = [i for i, (n, _) in enumerate(f["events"]) if n.startswith("call:") and n[5:].split(".")[-1].startswith(c["callee"])]
+        d = gen_extra.deps(f["outs"][0], f["events"]) if f["outs"] else set()
+        good = len(calls) == 1 and ("out", calls[0], c["need_port"]) in d and \
+            (c["forbid_port"] is None or ("out", calls[0], c["forbid_port"]) not in d)
+        if good:
+            rstats["comptime_accepted_with_provenance"] += 1
+        else:
+            ctx.report(f"comptime:{ctx.seed}:{c['id']}", "counterexample",
+                       "after a borrowing call from a comptime caller the element read does not come from the call's output for that parameter",
+                       dict(base, compiled_caller=pretty_tr(norm_impl(f, {})),
+                            required=f"the returned value depends on output port {c['need_port']} of the call to {c['callee']}"
+                                     + (f" and not on port {c['forbid_port']}" if c["forbid_port"] is not None else ""),
+                            depends_on=sorted(map(str, d))))
     # a run in which (almost) nothing was compared must not pass: the tie would be vacuous
     expected_fns = sum(len(c["funcs"]) for c in cases)
     if model_ok and stats["compared_functions"] < 0.8 * expected_fns:
@@ -362,7 +424,7 @@ def run(ctx):
         evaluations=len(tvc) + stats["compared_functions"], distinct_nontrivial=len(nontrivial),
         rule="non-trivial = a compiled function whose HUGR trace agreed with the model, counted up to equality of the whole trace; every generated program contains at least one callee with two same-typed borrowed inputs",
         translator_validation_cases=len(tvc), translator_disagreements=tv_dis,
-        writeback=stats, writeback_disagreements=wb_dis, programs=len(cases),
+        writeback=stats, writeback_disagreements=wb_dis, programs=len(cases), callee_exit_and_comptime=rstats,
         shape_distribution={k: sum(c.get("shape", {}).get(k, 0) for c in cases) for k in ("main_calls", "g_calls", "subscripts", "effectful_indices", "temporaries_for_borrowed")},
         samples=samples, notes=notes)
     return ctx.finish(LEVEL, cov, [
